@@ -317,6 +317,10 @@ def _nonneg(t) -> bool:
         return _nonneg(t[2]) and _nonneg(t[3])
     if t[0] == "undef":
         return True
+    if is_const(t) and isinstance(t[1], int) and not isinstance(t[1], bool) and t[1] >= 0:
+        return True
+    if t[0] == "bin" and t[1] == "<<" and _nonneg(t[2]):
+        return True  # (a negative shift count raises)
     if t[0] == "bin" and t[1] == "&":
         for k in (t[2], t[3]):
             if is_const(k) and isinstance(k[1], int) and k[1] >= 0:
